@@ -2,8 +2,14 @@
    (Model/UriSpec.v) for *every* pair of tables that passes `tables_ok`, and what it builds parses to
    exactly the expected prefix, media and parameters. *)
 From Coq Require Import Permutation.
-Require Import V.Base.MachineInt V.Generated.GenConsts V.Model.UriTypes V.Generated.GenUriTables V.Model.UriSpec
-               V.Model.Uri V.Model.UriBuilder V.Proofs.UriProofs.
+Require Import V.Base.MachineInt.
+Require Import V.Generated.GenConsts.
+Require Import V.Model.UriTypes.
+Require Import V.Generated.GenUriTables.
+Require Import V.Model.UriSpec.
+Require Import V.Model.Uri.
+Require Import V.Model.UriBuilder.
+Require Import V.Proofs.UriProofs.
 Open Scope Z_scope.
 
 (* ---- reflection of the boolean helpers ------------------------------------------------------------ *)
